@@ -665,7 +665,16 @@ class StorageBackend:
             try:
                 chunk, _ = chunk.split(t=time_range[1], allow_early_split=False)
             except strax.CannotSplit:
-                pass
+                # Some data straddles the end of the range. Split at the first possible time
+                # after it, which does not depend on how the data is chunked on disk.
+                t = time_range[1]
+                endtimes = strax.endtime(chunk.data)
+                while True:
+                    straddling = (chunk.data["time"] < t) & (endtimes > t)
+                    if not straddling.any():
+                        break
+                    t = endtimes[straddling].max()
+                chunk, _ = chunk.split(t=int(t), allow_early_split=False)
         return chunk
 
     def saver(self, key, metadata, **kwargs):
